@@ -137,7 +137,8 @@ class C18:
             "once for every k in 1..N with request k failing (exhaustive over k). Oracle: child not killed (no abort, "
             "signal, sanitizer report), every call returns, the context can afterwards be dumped, printed, parsed into "
             "and freed, allocation balance and stream count zero after cfg_free, no pointer value released twice or not "
-            "at all. A case is one (workload, k); distinct non-trivial = distinct failing sites func/kind#ordinal hit, "
+            "at all; and when the call inside which the request failed returns the same (successful) verdict as in the failure-free run, every later "
+            "result, dump and print equals that run ('completes or reports failure'). A case is one (workload, k); distinct non-trivial = distinct failing sites func/kind#ordinal hit, "
             "plus distinct (site, workload) pairs counted in extra")
     assumptions = [
         "single allocation failures only, injected at allocation requests made by confuse.c (malloc, calloc, realloc, "
@@ -164,6 +165,58 @@ class C18:
         ia = s.add("allocstat")
         return s, ia
 
+    _ref = {}
+
+    @staticmethod
+    def norm(e):
+        """a trace entry without addresses, errno and sequence numbers (p: only whether a handle came back)"""
+        out = {k: v for k, v in e.items() if k not in ("i", "errno", "oom", "diag")}
+        if "p" in out:
+            out["p"] = bool(out["p"])
+        if "cb" in out:
+            out["cb"] = [{k: v for k, v in c.items() if k != "seq"} for c in out["cb"]]
+        return out
+
+    @staticmethod
+    def verdict(e):
+        """what a call reports through its return value; None for calls that return nothing"""
+        for k in ("rc", "ok", "p"):
+            if k in e:
+                return (k, bool(e[k]) if k == "p" else e[k])
+        return None
+
+    SUCCESS = {"rc": 0, "ok": 1, "p": True}
+    MUTATORS = {"init", "parse_buf", "parse_fp", "parse_file", "setint", "setfloat", "setbool", "setstr", "setlist", "addlist", "setmulti", "setopt",
+                "osetint", "setcomment", "addtsec", "rmsec", "rmnsec", "rmtsec", "searchpath"}
+
+    def silent(self, case, trace, get_ex, site):
+        """'the call either completes or reports failure through its return value': when the call during which the
+        allocation failed returns the verdict of the failure-free run, everything observed afterwards equals that run"""
+        key = case.get("workload") or h64(repr((case["schema"], case["flags"], case["ops"])))
+        if key not in C18._ref:
+            s0, _ = self.build(dict(case, k=0))
+            r0 = get_ex("asan", 10).run(s0)
+            C18._ref[key] = r0.trace if r0.clean else None
+        ref = C18._ref[key]
+        if ref is None or len(ref) != len(trace):
+            return None
+        for n, (e, e0) in enumerate(zip(trace, ref)):
+            if not e.get("oom"):
+                continue
+            v, v0 = self.verdict(e), self.verdict(e0)
+            if e["c"] not in self.MUTATORS or v is None or v != v0 or v0[1] != self.SUCCESS[v0[0]]:
+                return None
+            for f, f0 in zip(trace[n + 1:], ref[n + 1:]):
+                if f.get("c") == "allocstat":
+                    continue
+                if self.norm(f) != self.norm(f0):
+                    return Failure("oom/silently-incomplete/%s/%s" % (e["c"], site),
+                                   "request %d (%s) failed inside step %d '%s', which returned %r like the failure-free run, but afterwards "
+                                   "'%s' (step %d) gives\n  %s\ninstead of\n  %s" % (case["k"], site, e["i"], e["c"], v, f.get("c"), f.get("i"),
+                                                                                    str(self.norm(f))[:700], str(self.norm(f0))[:700]))
+            return None
+        return None
+
     def check_case(self, case, get_ex):
         s, ia = self.build(case)
         r = get_ex("asan", 10).run(s)
@@ -174,7 +227,10 @@ class C18:
         if r.clean:
             a = t[ia]
             site = site_name(a["failsite"])
-            if a["live"] != 0:
+            fail = self.silent(case, r.trace, get_ex, site)
+            if fail is not None:
+                pass
+            elif a["live"] != 0:
                 fail = Failure("oom/leak/%s" % site, "%d blocks still allocated after cfg_free (failing request %d at %s)" %
                                (a["live"], case["k"], site))
             elif a["streams"] != 0:
